@@ -1,4 +1,5 @@
 """C13 - static priority always serves the highest-priority backlogged flow (SP)."""
+from vlib.util import guarded_leg
 import random
 from harness.mq import gen_group, evaluate, cases_from_replay
 from harness.mqoracle import oracle_c13, oracle_c12
@@ -40,6 +41,7 @@ def gen(rng, n):
 
 
 # ---- BEGIN spk leg: SP as processes on the kernel MODEL (lean/OnlVerif/Net/SPOnK.lean, driver mode `spk`) ----
+@guarded_leg(None)
 def run_spk(ctx, res=None):
     """Extra leg for Props/C13K.lean: the K program of the SP scheduler (put / send_packet / run + a source process), run at
     Float by the compiled driver, against the real SP with a real source process on the real kernel under env.run() (public API
